@@ -4,13 +4,9 @@ property whose tie theorem refers to them is compiled."""
 import os, subprocess, fcntl, hashlib
 VERIF = os.path.dirname(os.path.dirname(os.path.abspath(__file__)))
 COQ = os.path.join(VERIF, "coq")
-PY2COQ_PIDS = {"C02", "C04", "C05", "C09", "C10", "C14", "C16", "C17"}
-CHAIN = ["Gen/PyGen.v", "Proofs/Equiv_proofs.v", "Equiv/Equiv.v"]
-# translator script, generated file, files to re-check after it, properties whose Props file refers to them
-TRANSLATORS = {
-    "py2coq": ("py2coq.py", "Gen/PyGen.v", CHAIN, PY2COQ_PIDS),
-    "server": ("py2coq_server.py", "Gen/ServerGen.v", ["Gen/ServerGen.v", "Proofs/EquivServer_proofs.v", "Equiv/EquivServer.v"], {"C01", "C04", "C07", "C15"}),
-}
+import json
+TRANSLATORS = {k: (v["script"], v["gen"], v["chain"], set(v["pids"]))
+               for k, v in json.load(open(os.path.join(VERIF, "translate", "chains.json"))).items() if k != "tlsconf"}
 def translators_for(pid):
     return [k for k, v in TRANSLATORS.items() if pid in v[3]]
 
@@ -21,7 +17,7 @@ def _fresh(v):
 def regen_py2coq():
     return regen("py2coq")
 
-def regen(which):
+def regen(which, force=False):
     """-> (ok, message, info)"""
     script, genfile, CHAIN, _ = TRANSLATORS[which]
     lock = open(os.path.join(VERIF, ".build.lock2"), "w")
@@ -41,7 +37,7 @@ def regen(which):
             os.replace(tmp, out)
         else:
             os.unlink(tmp)
-        rebuild = new != old
+        rebuild = (new != old) or force
         for v in CHAIN:
             if rebuild or not _fresh(v):
                 rebuild = True
